@@ -73,6 +73,7 @@ def run(session: dict, seams: typing.Any) -> typing.List[dict]:
             seams.mut_count = 0
             seams.wopen_count = 0
             seams.writes_per_file = {}
+            seams.kind_counts = {}
             try:
                 which = step.get("which", "both")
                 if which in ("both", "support"):
